@@ -235,3 +235,74 @@ func short(s string, n int) string {
 	}
 	return s[:n] + fmt.Sprintf("...(%d chars)", len(s))
 }
+
+// ---------- cross-check of the extraction inside the proof assistant ----------
+// A slice of the very questions the extracted (OCaml) model answered on this run is written out as Coq
+// lemmas about the un-extracted definitions and decided by vm_compute in the kernel: the runner's
+// answers are thereby checked against the definitions the theorems are about.
+var xcheckStmts []string
+var xcheckCount = map[string]int{}
+
+func xcheck(kind string, limit int, stmt string) {
+	if xcheckCount[kind] >= limit {
+		return
+	}
+	xcheckCount[kind]++
+	xcheckStmts = append(xcheckStmts, stmt)
+}
+
+func writeXCheck(gdir, imports string) []string {
+	if len(xcheckStmts) == 0 {
+		return nil
+	}
+	var b strings.Builder
+	b.WriteString("(* generated: answers of the extracted model on this run, re-decided in the kernel *)\n" + imports + "\nOpen Scope Z_scope.\n")
+	for i, st := range xcheckStmts {
+		fmt.Fprintf(&b, "Lemma xcheck_%d : %s.\nProof. vm_compute. reflexivity. Qed.\n", i, st)
+	}
+	os.MkdirAll(gdir, 0o755)
+	os.WriteFile(gdir+"/XCheck.v", []byte(b.String()), 0o644)
+	return []string{"XCheck.v"}
+}
+
+func coqBytes(b []byte) string {
+	var sb strings.Builder
+	sb.WriteString("[")
+	for i, x := range b {
+		if i > 0 {
+			sb.WriteString("; ")
+		}
+		fmt.Fprintf(&sb, "x%02x", x)
+	}
+	sb.WriteString("]%byte")
+	return sb.String()
+}
+
+// the runner's "ok FMT w h bits icc" / "err" answer as a Coq term of type res mdata (None: not expressible)
+func coqMeta(ans string) (string, bool) {
+	f := strings.Fields(ans)
+	if len(f) == 1 && f[0] == "err" {
+		return "", false
+	}
+	if len(f) != 6 || f[0] != "ok" {
+		return "", false
+	}
+	icc := ""
+	switch {
+	case f[5] == "none":
+		icc = "IccNone"
+	case f[5] == "iccerr":
+		icc = "IccErr"
+	default:
+		return "", false
+	}
+	var w, h, bits uint64
+	fmt.Sscanf(f[2], "%x", &w)
+	fmt.Sscanf(f[3], "%x", &h)
+	fmt.Sscanf(f[4], "%x", &bits)
+	fmtc := map[string]string{"PNG": "PNG", "JPEG": "JPEG", "WebP": "WEBP", "WEBP": "WEBP"}[f[1]]
+	if fmtc == "" {
+		return "", false
+	}
+	return fmt.Sprintf("Ok {| md_format := %s; md_w := %d%%N; md_h := %d%%N; md_bits := %d%%N; md_icc := %s |}", fmtc, w, h, bits, icc), true
+}
